@@ -21,8 +21,7 @@
       consumed exactly when a record is pushed on the in-flight list).
     - [lim] is the recursion depth limit: [None] is the pinned tree (no
       limit), [Some 16] the tree with fixes/30-op-depth-limit.patch.
-    - Undefined behaviour is an outcome ([UB]): [ADDRXLAT_CAPS(as)] with [as]
-      outside [0, 63] (shift count), a method index outside the [meth] array,
+    - Undefined behaviour is an outcome ([UB]): a method index outside the [meth] array,
       a field or memory-array shift of 64 bits or more.
     - The memory behind the get-page callback is the function [mem as addr
       size] returning the callback's status and the loaded value; the 4-slot
@@ -164,8 +163,15 @@ Definition map_expect_as (mapidx : N) : Z :=
   else AS_KPHYS.
 
 (** [caps & ADDRXLAT_CAPS(as)], [ADDRXLAT_CAPS(val) = 1UL << (unsigned)(val)] *)
+(** With fixes/97-caps-noaddr-shift.patch a value that has no bit (e.g.
+    ADDRXLAT_NOADDR) gives the empty mask; before it, the shift was undefined.
+    (The result stays an [option]: [None] no longer occurs.) *)
 Definition caps_has (caps : N) (as_ : Z) : option bool :=
-  if ((0 <=? as_) && (as_ <? 64))%Z then Some (N.testbit caps (Z.to_N as_)) else None.
+  if ((0 <=? as_) && (as_ <? 64))%Z then Some (N.testbit caps (Z.to_N as_)) else Some false.
+
+(** ADDRXLAT_CAPS(as) as a mask *)
+Definition caps_of (as_ : Z) : N :=
+  if ((0 <=? as_) && (as_ <? 64))%Z then N.shiftl 1 (Z.to_N as_) else 0.
 
 (** struct inflight: (faddr.addr, faddr.as, chain) *)
 Definition key := (N * Z * chain_id)%type.
@@ -501,13 +507,12 @@ Section Interp.
   Inductive conv_outcome := Conv (st : Z) (fa : fulladdr) | ConvNoFuel | ConvUndefined.
 
   Definition fulladdr_conv (fuel : nat) (fa : fulladdr) (as_ : Z) : conv_outcome :=
-    if negb ((0 <=? as_) && (as_ <? 64))%Z then ConvUndefined
-    else match addrxlat_op fuel (fun _ => ST_OK) (N.shiftl 1 (Z.to_N as_)) fa with
-         | Done st [] => Conv st fa
-         | Done st (x :: _) => Conv st x
-         | NoFuel => ConvNoFuel
-         | Undefined => ConvUndefined
-         end.
+    match addrxlat_op fuel (fun _ => ST_OK) (caps_of as_) fa with
+    | Done st [] => Conv st fa
+    | Done st (x :: _) => Conv st x
+    | NoFuel => ConvNoFuel
+    | Undefined => ConvUndefined
+    end.
 End Interp.
 
 (** * The same interpreter with the read cache of ctx.c and a get-page
@@ -595,9 +600,7 @@ Section Cached.
       match backing a_as with
       | None => (Some (gp a_as a), c, false)
       | Some as' =>
-          if 64 <=? as' then (None, c, false)                  (* ADDRXLAT_CAPS(as'): undefined *)
-          else
-            match nested infl (N.shiftl 1 as') KStore (FA a (Z.of_N a_as)) c with
+            match nested infl (caps_of (Z.of_N as')) KStore (FA a (Z.of_N a_as)) c with
             | (XCall x, c') =>
                 match gp as' (fa_addr x) with
                 | inr (b, sz, d) =>
@@ -893,13 +896,12 @@ Section Cached.
 
   Definition fulladdr_conv_c (fuel : nat) (fa : fulladdr) (as_ : Z) (c : cache)
     : conv_outcome * cache :=
-    if negb ((0 <=? as_) && (as_ <? 64))%Z then (ConvUndefined, c)
-    else match addrxlat_op_c fuel (fun _ => ST_OK) (N.shiftl 1 (Z.to_N as_)) fa c with
-         | (Done st [], c') => (Conv st fa, c')
-         | (Done st (x :: _), c') => (Conv st x, c')
-         | (NoFuel, c') => (ConvNoFuel, c')
-         | (Undefined, c') => (ConvUndefined, c')
-         end.
+    match addrxlat_op_c fuel (fun _ => ST_OK) (caps_of as_) fa c with
+    | (Done st [], c') => (Conv st fa, c')
+    | (Done st (x :: _), c') => (Conv st x, c')
+    | (NoFuel, c') => (ConvNoFuel, c')
+    | (Undefined, c') => (ConvUndefined, c')
+    end.
 End Cached.
 
 (** The depth limit of the repaired tree (MAX_OP_DEPTH in sys.c). *)
